@@ -1,5 +1,6 @@
 """C14 - lexing tiles the input and decodes literals exactly."""
 import itertools
+import os
 import random
 import re
 import time
@@ -398,10 +399,49 @@ def number_forms_shard(args):
     return agg
 
 
+def fuzz_judge(agg, d):
+    data = d["data"]
+    desc = {"family": "fuzz", "input": data[:400].decode("latin-1")}
+    replay = {"script": ["LEX " + hx(data)], "fuzz_input_hex": data.hex()}
+    if d["cls"] == "monitor" and d["prop"] == PROP:
+        agg.violation({"kind": "fuzz_monitor", "msg": re.sub(r"[0-9]+", "N", d["msg"])[:100]}, dict(desc, monitor=d["msg"]), replay)
+    elif d["cls"] == "panic":
+        agg.violation({"kind": "lexer_panic", "msg": re.sub(r"[0-9]+", "N", d["msg"])[:80]},
+                      dict(desc, panic=d["msg"], loc="%s:%s" % (d["loc"], d["line"])), replay)
+    elif d["cls"] in ("sanitizer", "crash", "native_stack_overflow"):
+        agg.violation({"kind": "lexer_crash", "family": "fuzz"}, dict(desc, stderr=d["stderr"][-600:]), replay)
+    elif d["cls"] in ("timeout", "resource"):
+        agg.inconc("fuzz_" + d["cls"])
+    else:
+        agg.count("fuzz_artifact_not_reproduced")
+
+
+def fuzz_corpus_shard(args):
+    inputs = args[0]
+    agg = Agg()
+    srv = Server()
+    try:
+        for data in inputs:
+            check_input(agg, srv, data, "fuzz_corpus")
+    finally:
+        srv.close()
+    return agg
+
+
+def fuzz_corpus(agg, inputs):
+    agg.count("fuzz_corpus_inputs_through_reference_lexer", len(inputs))
+    for a in common.pmap(fuzz_corpus_shard, [(inputs[i::16],) for i in range(16)]):
+        agg.merge(a)
+
+
 def run(tier, seed):
     t0 = time.time()
     quick = tier != "thorough"
     total = Agg()
+    if not quick:
+        # coverage-guided inputs: tiling monitors in process (libFuzzer + ASan), the kept corpus through the reference lexer
+        import fuzzleg
+        fuzzleg.run_leg(total, PROP, "fz_lex", int(os.environ.get("VERIF_FUZZ_SECONDS") or 600), seed, 4096, fuzz_judge, fuzz_corpus)
     for a in common.pmap(number_forms_shard, [(seed,)]):
         total.merge(a)
     n = 160_000 if quick else 6_000_000
@@ -433,7 +473,8 @@ def run(tier, seed):
             "reference lexer written from the lexical grammar (token kind, extent, decoded payload), lossy UTF-8 via "
             "Python's decoder; exhaustive: all pairs and triples of the 15 operator characters in 5 contexts, every "
             "BMP scalar value (thorough; 18k in quick) + 2000 astral in 8 string/comment forms, every class of "
-            "invalid 1-3 byte UTF-8 prefix in 7 forms. distinct_nontrivial = distinct inputs on which the full token "
+            "invalid 1-3 byte UTF-8 prefix in 7 forms; thorough tier: a coverage-guided libFuzzer campaign with the tiling / "
+            "filter / located-error monitors in process, its kept corpus then compared with the reference lexer. distinct_nontrivial = distinct inputs on which the full token "
             "list was compared with the reference (or both rejected).")
     return common.finish(PROP, tier, seed, total, rule, t0,
                          assumptions=["reference lexer = my reading of the lexical grammar; text blocks with a stray CR right after the opening ||| are "
